@@ -22,7 +22,8 @@ FLOORS = {
     'quick': {'trims': 150, 'rounds': 600, 'output_compares': 2500, 'with_range_input': 20,
               'with_buried_input': 10, 'output_is_input': 10, 'output_without_input': 10,
               'cfg:mem': 40, 'cfg:xlsx': 30, 'reloaded': 40, 'trim_before_any_evaluate': 30,
-              'rounds_that_changed_an_output': 200, 'real_book_trims': 25},
+              'rounds_that_changed_an_output': 200, 'real_book_trims': 25,
+              'refused_trims_before_the_real_one': 20, 'input_and_output_without_dependants_listed_first': 10},
     'thorough': {'trims': 3500, 'rounds': 14000, 'with_range_input': 500, 'with_buried_input': 250,
                  'reloaded': 1000},
 }
@@ -66,9 +67,22 @@ def plan_case(rng, spec, meta):
         free = [f for f in formulas if not (wbgen.influencers(meta, f) & set(inputs)) and f != buried]
         if free:
             extra_output = rng.choice(free)                    # an output no input feeds
-    return {'outputs': outputs + ([extra_output] if extra_output and extra_output not in outputs else []),
-            'inputs': inputs, 'buried': buried, 'want_range': rng.random() < 0.45,
-            'extra_kind': None if extra_output is None else ('input' if extra_output in inputs else 'free')}
+    outputs = outputs + ([extra_output] if extra_output and extra_output not in outputs else [])
+    # constants that nothing chosen depends on: one to ask for a trim that must be refused before the real one,
+    # one (read by no formula at all) given as input AND output, first in the list of inputs
+    main = spec['sheets'][0][0]
+    spare = sorted(a for a in meta['inputs'] if a not in infl and a.startswith(main + '!') and
+                   wb.spec_cells(spec).get(a) is not None)
+    lonely = [a for a in spare if not wbgen.dependants(meta, a)]       # read by no formula at all
+    refuse_first = rng.choice(lonely) if lonely and rng.random() < 0.4 else None
+    lonely = [a for a in lonely if a != refuse_first]
+    lonely_io = rng.choice(lonely) if lonely and rng.random() < 0.3 else None
+    if lonely_io:
+        inputs = [lonely_io] + inputs
+        outputs = outputs + [lonely_io]
+    return {'outputs': outputs, 'inputs': inputs, 'buried': buried, 'want_range': rng.random() < 0.45,
+            'extra_kind': None if extra_output is None else ('input' if extra_output in inputs else 'free'),
+            'refuse_first': refuse_first, 'lonely_io': lonely_io}
 
 
 def pick_range_input(rng, comp, spec, meta, plan):
@@ -132,6 +146,18 @@ def one_case(ctx, spec, meta, plan, config, pre, reload_fmt, rounds, rng=None):
         # cells covered by the range are assigned through the range only
         inputs = [a for a in inputs if a not in range_input[3]] + [range_input[0]]
     plan['final_inputs'] = inputs
+    if plan.get('lonely_io'):
+        ctx.count('input_and_output_without_dependants_listed_first')
+    if plan.get('refuse_first'):
+        # a trim that pycel must refuse (an input no output depends on) leaves the model as it was
+        for m in (U, T):
+            wb.outcome(m.evaluate, plan['refuse_first'])
+        o = wb.outcome(T.trim_graph, [plan['refuse_first']], outputs)
+        if o != ('x', 'ValueError'):
+            # not refused (or failed otherwise): the model is trimmed for other inputs now, nothing to compare
+            ctx.count(f'trim_with_an_unused_input:{o[0]}:{o[1] if o[0] == "x" else ""}')
+            return
+        ctx.count('refused_trims_before_the_real_one')
     try:
         T.trim_graph(inputs, outputs)
     except ValueError as exc:
